@@ -120,23 +120,17 @@ def _roundtrip(libcls, obj, key, legacy):
         return rd[key]
 
 
-def h_mol(cell: int, legacy: bool, name: str, charge: int, mult: int, iso: Optional[int], label: Optional[str], atype: int, stereo: int,
-          geom: int, fc: int, fs: int, aint: int, mint: int, psel: int, blabel: Optional[str], btype: int, bstereo: int, fsel: int, bint: int) -> bool:
-    """
-    Molecule -> MoleculeLibrary -> Molecule, current (v2) and legacy (v1, restricted to its schema) encodings.
-    pre: 0 <= cell < len(MCELLS) and (SPLIT < 0 or cell == SPLIT)
-    pre: len(name) <= 2 and -9 <= charge <= 9 and 1 <= mult <= 9
-    pre: (iso is None or 0 <= iso <= 300) and (label is None or len(label) <= 2) and (blabel is None or len(blabel) <= 2)
-    pre: 0 <= atype <= 300 and 0 <= stereo <= 40 and 0 <= geom <= 70 and -4 <= fc <= 4 and 0 <= fs <= 4
-    pre: 0 <= btype <= 101 and 0 <= bstereo <= 21 and 0 <= fsel < 4 and 0 <= psel < 4
-    pre: -1000 <= aint <= 1000 and -1000 <= mint <= 1000 and -1000 <= bint <= 1000
-    post: _
-    """
+DEF = dict(name="nm", charge=-2, mult=3, iso=13, label="L", atype=2, stereo=10, geom=41, fc=-1, fs=1, aint=7, mint=9, psel=0,
+           blabel="bl", btype=2, bstereo=11, fsel=1, bint=5)
+
+
+def _mol_rt(cell, legacy, **kw):
+    f = dict(DEF, **kw)
     el, na, nb = MCELLS[cell]
-    atoms = _atoms(el, na, iso, label, atype, stereo, geom, fc, fs, aint)
-    m = Molecule(atoms, name=name, charge=charge, mult=mult, coords=COORDS[:na], atomic_charges=CHARGES[:na],
-                 attrib={"val": mint, "nested": {"k": (1, "two", None)}, "s": "txt"})
-    _bonds(m, nb, psel, blabel, btype, bstereo, fsel, bint)
+    atoms = _atoms(el, na, f["iso"], f["label"], f["atype"], f["stereo"], f["geom"], f["fc"], f["fs"], f["aint"])
+    m = Molecule(atoms, name=f["name"], charge=f["charge"], mult=f["mult"], coords=COORDS[:na], atomic_charges=CHARGES[:na],
+                 attrib={"val": f["mint"], "nested": {"k": (1, "two", None)}, "s": "txt"})
+    _bonds(m, nb, f["psel"], f["blabel"], f["btype"], f["bstereo"], f["fsel"], f["bint"])
     r = _roundtrip(MoleculeLibrary, m, "key", legacy)
     if r is None or type(r) is not Molecule:
         return False
@@ -144,26 +138,16 @@ def h_mol(cell: int, legacy: bool, name: str, charge: int, mult: int, iso: Optio
         and r.coords.shape == (na, 3) and r.atomic_charges.shape == (na,)
 
 
-def h_ens(cell: int, legacy: bool, name: str, charge: int, mult: int, iso: Optional[int], label: Optional[str], atype: int, stereo: int,
-          geom: int, fc: int, fs: int, aint: int, mint: int, psel: int, blabel: Optional[str], btype: int, bstereo: int, fsel: int, bint: int) -> bool:
-    """
-    ConformerEnsemble -> ConformerLibrary -> ConformerEnsemble with 0..2 conformers.
-    pre: 0 <= cell < len(ECELLS) and (SPLIT < 0 or cell == SPLIT)
-    pre: len(name) <= 2 and -9 <= charge <= 9 and 1 <= mult <= 9
-    pre: (iso is None or 0 <= iso <= 300) and (label is None or len(label) <= 2) and (blabel is None or len(blabel) <= 2)
-    pre: 0 <= atype <= 300 and 0 <= stereo <= 40 and 0 <= geom <= 70 and -4 <= fc <= 4 and 0 <= fs <= 4
-    pre: 0 <= btype <= 101 and 0 <= bstereo <= 21 and 0 <= fsel < 4 and 0 <= psel < 4
-    pre: -1000 <= aint <= 1000 and -1000 <= mint <= 1000 and -1000 <= bint <= 1000
-    post: _
-    """
+def _ens_rt(cell, legacy, **kw):
+    f = dict(DEF, **kw)
     nc, na, nb = ECELLS[cell]
-    atoms = _atoms(1, na, iso, label, atype, stereo, geom, fc, fs, aint)
+    atoms = _atoms(1, na, f["iso"], f["label"], f["atype"], f["stereo"], f["geom"], f["fc"], f["fs"], f["aint"])
     coords = np.array([COORDS[:na] * (c + 1) + c for c in range(nc)]).reshape((nc, na, 3))
     charges = np.array([CHARGES[:na] - 0.5 * c for c in range(nc)]).reshape((nc, na))
     weights = np.array([0.75, 0.1][:nc])
-    e = ConformerEnsemble(atoms, n_conformers=nc, name=name, charge=charge, mult=mult, coords=coords, weights=weights,
-                          atomic_charges=charges, attrib={"val": mint, "s": "txt"})
-    _bonds(e, nb, psel, blabel, btype, bstereo, fsel, bint)
+    e = ConformerEnsemble(atoms if na else None, n_conformers=nc, name=f["name"], charge=f["charge"], mult=f["mult"], coords=coords, weights=weights,
+                          atomic_charges=charges, attrib={"val": f["mint"], "s": "txt"})
+    _bonds(e, nb, f["psel"], f["blabel"], f["btype"], f["bstereo"], f["fsel"], f["bint"])
     r = _roundtrip(ConformerLibrary, e, "ek", legacy)
     if r is None or type(r) is not ConformerEnsemble:
         return False
@@ -171,6 +155,64 @@ def h_ens(cell: int, legacy: bool, name: str, charge: int, mult: int, iso: Optio
         return False
     return _same_struct(r, e, legacy) and _same_arr(r.coords, e.coords) and _same_arr(r.atomic_charges, e.atomic_charges) \
         and _same_arr(r.weights, e.weights)
+
+
+def _rt(kind, cell, legacy, **kw):
+    return _mol_rt(cell, legacy, **kw) if kind == 0 else _ens_rt(cell, legacy, **kw)
+
+
+def _ncells(kind):
+    return len(MCELLS) if kind == 0 else len(ECELLS)
+
+
+# Quick tier: three obligations per cell, each with one *group* of fields symbolic and the others concrete (sum instead of product of
+# the branchings on None-ness / string length).  Thorough tier adds the full product.  SPLIT = kind * 100 + cell.
+
+def h_top_fields(kind: int, cell: int, legacy: bool, name: str, charge: int, mult: int, mint: int) -> bool:
+    """
+    object-level fields symbolic (name, charge, multiplicity, attribute value)
+    pre: 0 <= kind <= 1 and 0 <= cell < _ncells(kind) and (SPLIT < 0 or kind * 100 + cell == SPLIT)
+    pre: len(name) <= 2 and -9 <= charge <= 9 and 1 <= mult <= 9 and -1000 <= mint <= 1000
+    post: _
+    """
+    return _rt(kind, cell, legacy, name=name, charge=charge, mult=mult, mint=mint)
+
+
+def h_atom_fields(kind: int, cell: int, legacy: bool, iso: Optional[int], label: Optional[str], atype: int, stereo: int, geom: int, fc: int, fs: int, aint: int) -> bool:
+    """
+    fields of atom 0 symbolic
+    pre: 0 <= kind <= 1 and 0 <= cell < _ncells(kind) and (SPLIT < 0 or kind * 100 + cell == SPLIT)
+    pre: (iso is None or 0 <= iso <= 300) and (label is None or len(label) <= 2)
+    pre: 0 <= atype <= 300 and 0 <= stereo <= 40 and 0 <= geom <= 70 and -4 <= fc <= 4 and 0 <= fs <= 4 and -1000 <= aint <= 1000
+    post: _
+    """
+    return _rt(kind, cell, legacy, iso=iso, label=label, atype=atype, stereo=stereo, geom=geom, fc=fc, fs=fs, aint=aint)
+
+
+def h_bond_fields(kind: int, cell: int, legacy: bool, psel: int, blabel: Optional[str], btype: int, bstereo: int, fsel: int, bint: int) -> bool:
+    """
+    fields of bond 0 symbolic (endpoints by selector, label, type, stereo, fractional order menu, attribute value)
+    pre: 0 <= kind <= 1 and 0 <= cell < _ncells(kind) and (SPLIT < 0 or kind * 100 + cell == SPLIT)
+    pre: (blabel is None or len(blabel) <= 2) and 0 <= btype <= 101 and 0 <= bstereo <= 21 and 0 <= fsel < 4 and 0 <= psel < 4 and -1000 <= bint <= 1000
+    post: _
+    """
+    return _rt(kind, cell, legacy, psel=psel, blabel=blabel, btype=btype, bstereo=bstereo, fsel=fsel, bint=bint)
+
+
+def h_all_fields(kind: int, cell: int, legacy: bool, name: str, charge: int, mult: int, iso: Optional[int], label: Optional[str], atype: int, stereo: int,
+                 geom: int, fc: int, fs: int, aint: int, mint: int, psel: int, blabel: Optional[str], btype: int, bstereo: int, fsel: int, bint: int) -> bool:
+    """
+    full product of the three groups (thorough tier)
+    pre: 0 <= kind <= 1 and 0 <= cell < _ncells(kind) and (SPLIT < 0 or kind * 100 + cell == SPLIT)
+    pre: len(name) <= 1 and -9 <= charge <= 9 and 1 <= mult <= 9
+    pre: (iso is None or 0 <= iso <= 300) and (label is None or len(label) <= 1) and (blabel is None or len(blabel) <= 1)
+    pre: 0 <= atype <= 300 and 0 <= stereo <= 40 and 0 <= geom <= 70 and -4 <= fc <= 4 and 0 <= fs <= 4
+    pre: 0 <= btype <= 101 and 0 <= bstereo <= 21 and 0 <= fsel < 4 and 0 <= psel < 4
+    pre: -1000 <= aint <= 1000 and -1000 <= mint <= 1000 and -1000 <= bint <= 1000
+    post: _
+    """
+    return _rt(kind, cell, legacy, name=name, charge=charge, mult=mult, iso=iso, label=label, atype=atype, stereo=stereo, geom=geom, fc=fc, fs=fs,
+               aint=aint, mint=mint, psel=psel, blabel=blabel, btype=btype, bstereo=bstereo, fsel=fsel, bint=bint)
 
 
 ENCODED = ["molli.chem.io._serialize_mol_v2", "molli.chem.io._deserialize_mol_v2", "molli.chem.io._serialize_ens_v2", "molli.chem.io._deserialize_ens_v2",
@@ -193,8 +235,18 @@ def run(rep, tier):
                    "list-valued attributes are compared up to list/tuple (msgpack use_list=False)"]
     rep.assumptions = ["HandleCodec = msgpack round trip (tuple-isation, IntEnum->int, float32 rounding); storage models as in C02"]
     q = tier == "quick"
-    mc = [c for c in range(len(MCELLS))] if not q else [2, 5, 7, 10, 11, 12]
-    ec = [c for c in range(len(ECELLS))] if not q else [0, 3, 5, 7, 10, 11]
-    specs = [{"fn": "h_mol", "timeout": 400, "split": c} for c in mc] + [{"fn": "h_ens", "timeout": 400, "split": c} for c in ec]
+    mc = list(range(len(MCELLS))) if not q else [2, 4, 8, 11, 12]
+    ec = list(range(len(ECELLS))) if not q else [0, 3, 5, 6, 11]
+    specs = []
+    for kind, cells in ((0, mc), (1, ec)):
+        for c_ in cells:
+            na, nb = (MCELLS[c_][1], MCELLS[c_][2]) if kind == 0 else (ECELLS[c_][1], ECELLS[c_][2])
+            specs.append({"fn": "h_top_fields", "timeout": 400, "split": kind * 100 + c_})
+            if na >= 1:
+                specs.append({"fn": "h_atom_fields", "timeout": 400, "split": kind * 100 + c_})
+            if nb >= 1:
+                specs.append({"fn": "h_bond_fields", "timeout": 400, "split": kind * 100 + c_})
+    if not q:
+        specs += [{"fn": "h_all_fields", "timeout": 2400, "split": s_} for s_ in (2, 11, 106, 111)]
     xh.run_obligations(rep, "harness.C01", specs)
     xh.known_witness(rep, "harness.C01")
